@@ -59,6 +59,43 @@ Definition first_max (cur refer : list N) (cs : list (list N)) : option (list N)
 Definition best_set (cur refer : list N) (st : idx) : list (list N) :=
   argmax_set cur refer (bm_candidates refer st).
 
+(* ---- the repaired choice (fixes/C09-deterministic-order.diff): resultSorterMatch.Less breaks score ties by the
+        candidate path (Go string comparison = bytewise lexicographic), so Less is a strict total order on the
+        (distinct) candidates and results[0] does not depend on the iteration order or on the sort algorithm ---- *)
+Fixpoint bytes_ltb (a b : list N) {struct a} : bool :=
+  match a, b with
+  | _, [] => false
+  | [], _ :: _ => true
+  | x :: a', y :: b' => if x <? y then true else if y <? x then false else bytes_ltb a' b'
+  end.
+Definition bytes_leb (a b : list N) : bool := negb (bytes_ltb b a).
+
+(* Less(i, j) of the repaired sorter *)
+Definition less_fx (cur refer a b : list N) : bool :=
+  let sa := calc_score cur refer a in
+  let sb := calc_score cur refer b in
+  if Z.eqb sa sb then bytes_ltb a b else Z.ltb sb sa.
+
+Fixpoint min_path (c0 : list N) (cs : list (list N)) {struct cs} : list N :=
+  match cs with
+  | [] => c0
+  | c :: r => min_path (if bytes_ltb c c0 then c else c0) r
+  end.
+Definition least_path (cs : list (list N)) : option (list N) :=
+  match cs with [] => None | c :: r => Some (min_path c r) end.
+
+(* GetBestMatchReferFile's choice among the candidates cs (given in the order the map iteration produced them).
+   fx = false: the code before the repair with a stable sort (first_max; with Go's unstable sort: any element of
+               argmax_set);
+   fx = true : the repaired code: the best-scored candidate with the least path *)
+Definition best_match (fx : bool) (cur refer : list N) (cs : list (list N)) : option (list N) :=
+  if fx then least_path (argmax_set cur refer cs) else first_max cur refer cs.
+
+(* the set of files the code may answer: a singleton (or empty) once repaired *)
+Definition best_set_fx (fx : bool) (cur refer : list N) (st : idx) : list (list N) :=
+  if fx then match best_match true cur refer (bm_candidates refer st) with Some c => [c] | None => [] end
+  else best_set cur refer st.
+
 (* ---- CheckReferFile ---- *)
 Inductive rkind := KRequire | KSuffix | KFrameNoSuffix.
 (* KSuffix: dofile, loadfile, framework import with SuffixFlag<>0; KFrameNoSuffix: framework import, SuffixFlag=0 *)
